@@ -24,7 +24,7 @@ VERIF = os.path.dirname(os.path.abspath(__file__))  # also in engines.py
 sys.path.insert(0, VERIF)
 
 from engines import *  # noqa: F401,F403,E402
-from engines import ENGINES, build, run_cmd, engine_env, target_dir, binary
+from engines import ALT_TAG, ENGINES, build, run_cmd, engine_env, target_dir, binary
 
 # ------------------------------------------------------------------ plans ----
 from plans import PLANS, RULES, ASSUMPTIONS, LEVEL_NOTES  # noqa: E402
@@ -268,9 +268,20 @@ def write_replay(prop, v):
 
 def check(prop, tier, seed):
     t0 = time.time()
-    plan = PLANS[prop][tier]
+    htier = tier
+    if tier == "smoke":
+        # mutation screening (mutate.py): the native dev/release parts of the quick plan
+        # with a few seconds per shard; never registered in MANIFEST.json
+        budget = float(os.environ.get("MB2_SMOKE_BUDGET_S", "3"))
+        keep = ("dev", "rel")
+        import plans as _plans
+        _plans.C08_ENGINES = list(keep)  # profile comparison only; feature configurations are left to the quick tier
+        plan = [dict(r, budget_s=min(r.get("budget_s", budget), budget)) for r in PLANS[prop]["quick"] if r["engine"] in keep]
+        htier = "quick"
+    else:
+        plan = PLANS[prop][tier]
     known = load_known()
-    logdir = os.path.join(VERIF, "logs", f"{prop}-{tier}")
+    logdir = os.path.join(VERIF, "logs", f"{prop}-{tier}{ALT_TAG}")
     shutil.rmtree(logdir, ignore_errors=True)
     os.makedirs(logdir, exist_ok=True)
     evdir = os.environ.get("MB2_EVIDENCE_DIR", os.path.join(VERIF, "evidence"))
@@ -298,7 +309,7 @@ def check(prop, tier, seed):
         if r["engine"] not in usable:
             continue
         ids, n = shard_ids(r.get("procs", NCPU), r.get("density", 1), seed)
-        args = [r.get("driver", prop), "--seed", str(seed), "--tier", tier]
+        args = [r.get("driver", prop), "--seed", str(seed), "--tier", htier]
         if "max_cases" in r:
             args += ["--max-cases", str(r["max_cases"])]
         if "budget_s" in r:
